@@ -190,6 +190,9 @@ type Lifetime struct {
 	Sched   *SchedSpec        `json:"sched,omitempty"`
 	Faults  []Fault           `json:"faults,omitempty"`
 	Note    string            `json:"note,omitempty"`
+	// Shuffle: -test.shuffle seed (0 = off): the real runner executes the tests in
+	// another order.
+	Shuffle int `json:"shuffle,omitempty"`
 	// PreDelete: before this lifetime starts, the driver deletes the n-th (modulo the
 	// number present, in path order) standalone snapshot file - a user removing a
 	// file by hand. 0 = nothing.
